@@ -608,6 +608,17 @@ def rewrite_iter_adapters(code, stats):
             code = code[:rs] + new + code[cl + 1:]
             stats["R9"] = stats.get("R9", 0) + 1
             continue
+        m = re.search(r"\.\s*into_iter\(\)\s*\.\s*flatten\(\)\s*\.\s*for_each\s*\(\s*(?=\|)", code)
+        if m:
+            # R9h: `E.into_iter().flatten().for_each(|x| B)` over a collection of Options =
+            # `for x_ in E { if let Some(x) = x_ { B } }` (definition of Option's IntoIterator)
+            rs = _receiver_start(code, m.start())
+            recv = flat(code[rs:m.start()])
+            var, body, cl = _closure_at(code, m.end())
+            new = "for /*R9:E=%s;X=%s_*/ %s_ in it_: %s { if let Some(%s) = %s_ { %s; } }" % (recv, var, var, recv, var, var, body)
+            code = code[:rs] + new + code[cl + 1:]
+            stats["R9"] = stats.get("R9", 0) + 1
+            continue
         m = re.search(r"\.\s*into_iter\(\)\s*\.\s*for_each\s*\(\s*(?=\|)", code)
         if m:
             rs = _receiver_start(code, m.start())
@@ -830,6 +841,7 @@ class ImplSpec:
         self.loops = {}
         self.rewrites = []
         self.silent = []
+        self.yieldasserts = []   # (fn, regex of the call that hands control to foreign code, assertion)
         self.borrowprobes = {}   # (fn, loop ordinal) -> place expression that must be LENT while the loop runs
         self.frames = []      # (fn, field, type): by-value method must leave this cell field untouched
         self.trusted = set()
@@ -954,6 +966,21 @@ def process_fn(fn, spec, handle, stats, canary):
             raise ExtractError("declared rewrite on %s no longer matches exactly once: %s" % (name, old))
         body = body[: ms[0].start()] + new + body[ms[0].end():]
         stats["declared_rewrites"] += 1
+    # re-entry discipline: a proof assertion right before the statement that hands control to foreign
+    # code (found by a declared regex, so that it survives renamings of the arguments); a yield point
+    # that can no longer be found is a lost anchor (exit 2)
+    for (fname, rx_s, expr_) in getattr(spec, "yieldasserts", []):
+        if fname != name:
+            continue
+        masked = mask_trivia(body)
+        ms_ = list(re.finditer(rx_s, masked))
+        if not ms_:
+            raise ExtractError("yield point of %s not found: %s" % (name, rx_s))
+        for m_ in reversed(ms_):
+            k_ = max(masked.rfind(";", 0, m_.start()), masked.rfind("{", 0, m_.start()), masked.rfind("}", 0, m_.start()))
+            e_, _, c_ = expr_.partition("//")
+            body = body[:k_ + 1] + "\n        assert(%s); // %s(yield point)" % (e_.strip(), (c_.strip() + " ") if c_ else "") + body[k_ + 1:]
+        stats["added_lines"] += len(ms_)
     if spec.lazy:
         # R11: `Box::new(move || BODY)` (a deferred subscription) becomes `Lazy::defer(<captured>)`;
         # the closure body itself is NOT verified in this unit (stated in the unit header)
@@ -1509,6 +1536,11 @@ def generate_(template_path, variant, canary=False):
                     rest_ = l.split("::", 1)[1]
                     old, new = rest_.split("==>", 1)
                     spec.rewrites.append((fname, old.strip(), new.strip()))
+                    i += 1
+                elif t[0] == "@@yieldassert":
+                    # @@yieldassert <fn> :: <regex of the foreign call> :: <spec expression> [// comment]
+                    parts_ = l.split(" :: ", 2)
+                    spec.yieldasserts.append((t[1], parts_[1].strip(), parts_[2].strip()))
                     i += 1
                 elif t[0] == "@@borrowprobe":
                     tg_ = re.search(r"\[((?:C\d+\s*,?\s*)+)\]", l.split("::", 1)[0])
